@@ -23,10 +23,10 @@
        `Framed ver ty xid bs v'`  ∧  `∀ l v1, K.lenM v = .ok (l, v1) → l.toNat = bs.length`.
        flowMod_framed                    every command, any content; needs `bs.length < 65536` (Len() is uint16, the
                                          encoding is appended: `C06b.instrActions_size_counterexample`)
-       groupMod_framed_partial           needs every bucket's encoding to be a multiple of 8 bytes (`BucketAligned`,
-                                         implied by `bucketAligned_of_padded`); FALSE otherwise:
-                                         `groupMod_unframed_counterexample` — a GENUINE DEFECT reachable through
-                                         NewGroupMod / NewBucket / AddAction / AddBucket alone
+       groupMod_framed                   every command, any buckets with any actions; needs only `bs.length < 65536`
+                                         (Bucket.MarshalBinary() writes the padding Bucket.Len() counts — the fix of
+                                         the defect this file first recorded as `groupMod_unframed_counterexample`;
+                                         `groupMod_padded_bucket_framed` is that very value, now framed)
        portMod_framed, switchConfig_framed, hello_framed         unconditional
        header_bytes / headerOnly_sent    echo request / reply, features request, get-config request, barrier request:
                                          the bare header is written AS STORED (Length is not recomputed); every
@@ -43,9 +43,12 @@
      (`…_hdr`), `$m.Xid = x` keeps version and type (`Frame.Stamped.setXid`).
   3. COMPOSED (`…_sent`): a message that is `Stamped T xid` — built by constructor C, any sequence of adders and
      assignments to other fields — encodes with version 4, type T, length = bytes produced, that xid.
-  4. For the record: constructors of switch-originated kinds the library also exports and that are NOT framed
-     (`errorMsg_new_unframed`, `flowRemoved_new_unframed`, `bundleError_new_unframed`, `portStatus_new_type0`), and
-     `packetOut_new_panics` (NewPacketOut() cannot be encoded before SetData).
+  4. SWITCH-ORIGINATED kinds the library also constructs and encodes (after the fixes of their constructors and
+     encoders): `errorMsg_framed`, `vendorError_framed`, `flowRemoved_framed`, `portStatus_framed`, `packetIn_framed`,
+     their `…_new_stamped` / `…_sent`, and `switch_side_constructors_framed` (the former `…_new_unframed` values).
+  Observations kept: `header_stored_length_counterexample` (a bare header is written as stored: a Length field
+  assigned by hand is sent as is — not reachable through constructors) and `packetOut_new_panics` (NewPacketOut()
+  cannot be encoded before SetData).
 -/
 import OFV.Model.All
 import OFV.Lemmas.Size
@@ -166,61 +169,27 @@ theorem groupMod_framed_of_size (v : V) (ver ty xid : Nat) (ln : V)
       · exact absurd h3 (by simp)
   · exact absurd hl (by simp)
 
-/-- GroupMod — PARTIAL: framed when every bucket's encoding is a multiple of 8 bytes long (`BucketAligned`, the
-    condition of `C06b.groupMod_size_partial`; Bucket.Len() rounds up to 8 but the encoder writes no padding) and the
-    encoding is shorter than 64 KiB.  The full statement (no `hal`) is FALSE: `groupMod_unframed_counterexample`. -/
-theorem groupMod_framed_partial (ver ty xid : Nat) (ln cmd t p g : V) (bks : List V)
-    (hal : ∀ b ∈ bks, BucketAligned b)
-    (bs : Bytes) (v' : V)
-    (hm : GroupMod.marshalM (.obj "GroupMod" [.obj "Header" [.num ver, .num ty, ln, .num xid], cmd, t, p, g, .list bks]) = .ok (bs, v'))
-    (hlt : bs.length < 65536) :
-    Framed ver ty xid bs v' ∧
-    ∀ l v1, GroupMod.lenM (.obj "GroupMod" [.obj "Header" [.num ver, .num ty, ln, .num xid], cmd, t, p, g, .list bks]) = .ok (l, v1) →
-      l.toNat = bs.length := by
-  have hs := fun l v1 hl => (C06b.groupMod_size_partial _ cmd t p g bks hal).toOK l v1 bs v' hl hm hlt
-  exact ⟨groupMod_framed_of_size _ ver ty xid ln rfl bs v' hm hs, fun l v1 hl => (hs l v1 hl).symm⟩
+/-- GroupMod — every command (add, modify, delete), any buckets with any number and mix of actions: framed, as long as
+    the encoding is shorter than 64 KiB (Len() adds in uint16, the encoding is appended).  Bucket.MarshalBinary() writes
+    the padding Bucket.Len() counts, so no alignment condition is left (`Frame.groupMod_size`, proved from the model). -/
+theorem groupMod_framed (v : V) (ver ty xid : Nat) (ln : V)
+    (hh : hdrOf v = .obj "Header" [.num ver, .num ty, ln, .num xid])
+    (bs : Bytes) (v' : V) (hm : GroupMod.marshalM v = .ok (bs, v')) (hlt : bs.length < 65536) :
+    Framed ver ty xid bs v' ∧ ∀ l v1, GroupMod.lenM v = .ok (l, v1) → l.toNat = bs.length := by
+  have hs := fun l v1 hl => groupMod_size v l v1 bs v' hl hm hlt
+  exact ⟨groupMod_framed_of_size v ver ty xid ln hh bs v' hm hs, fun l v1 hl => (hs l v1 hl).symm⟩
 
-/-- a usable sufficient condition for `BucketAligned`: every action of the bucket is of a kind that pads to 8 bytes
-    (output, set-queue, group, dec-nw-ttl, push / pop, set-field, and the Nicira kinds that round up) — any number and
-    mix of them, any field values -/
-theorem bucketAligned_of_padded (l0 w wp wg p : V) (as : List V) (hk : ∀ a ∈ as, a.kind ∈ PaddedKinds) :
-    BucketAligned (.obj "Bucket" [l0, w, wp, wg, p, .list as]) := by
-  intro l b1 bytes b2 h1 h2
-  simp only [Bucket.lenM] at h1
-  obtain ⟨⟨ls, as1⟩, hm1, h1'⟩ := bind_ok_inv _ _ _ h1
-  cases h1'
-  obtain ⟨_, _, _, _, _, as', ls', as1', bss, as2, heq, hl', hm', rfl⟩ := C06b.bucket_embeds _ _ _ h2
-  cases heq
-  have hid := mapM2_idem Action.lenM as ls as1 (fun x _ a x' hx => Action.lenM_idem x a x' hx) hm1
-  rw [hid] at hl'
-  cases hl'
-  have := actions_encoding_aligned as ls as1 bss as2 hm1 hm' hk
-  simp only [List.length_append, be16_length, be32_length, zeros_length]
-  omega
-
-/-- GENUINE DEFECT (group.go), reachable through constructors and adders only:
-    `b := NewBucket(); b.AddAction(NewNxActionHeader(0)); g := NewGroupMod(); g.AddBucket(*b)` (xid 7) encodes to 42
-    bytes while the length field of its header — and Header.Length stored back — says 48: Bucket.Len() rounds the
-    bucket (16 + 10 bytes) up to 32 but the padding is never written.  The message is not framed. -/
-theorem groupMod_unframed_counterexample :
+/-- the former counterexample — `NewBucket(); AddAction(NewNxActionHeader(0)); NewGroupMod(); AddBucket` (a 10-byte
+    action: the bucket's 26 bytes are padded to the 32 that Bucket.Len() reports) — is now framed: 48 bytes, length 48 -/
+theorem groupMod_padded_bucket_framed :
     ∃ b g bs v', Bucket.addAction Bucket.new (NXActionHeader.new 0) = .ok b ∧
       GroupMod.addBucket (GroupMod.new 7) b = .ok g ∧
-      GroupMod.marshalM g = .ok (bs, v') ∧ bs.length = 42 ∧ beAt bs 2 2 = 48 ∧
-      ¬ Framed Gen.openflow13.VERSION Gen.openflow13.Type_GroupMod 7 bs v' := by
-  refine ⟨_, _, _, _, rfl, rfl, rfl, rfl, rfl, ?_⟩
-  intro hf
-  have := hf.head
-  revert this
-  decide
-
-/-- the same defect with a genuine OpenFlow action — the 4-byte header-only action the library uses for COPY_TTL_OUT
-    (a struct literal: it has no constructor): 36 bytes produced, length field 40 -/
-theorem groupMod_unframed_counterexample_copyTtlOut :
-    ∃ bs v', GroupMod.marshalM (.obj "GroupMod" [.obj "Header" [.num 4, .num 15, .num 8, .num 7], .num 0, .num 0, .num 0, .num 1,
-        .list [.obj "Bucket" [.num 16, .num 0, .num 4294967295, .num 4294967295, .bytes (zeros 4),
-          .list [ActionHeader.mk Gen.openflow13.ActionType_CopyTtlOut 4]]]]) = .ok (bs, v') ∧
-      bs.length = 36 ∧ beAt bs 2 2 = 40 :=
-  ⟨_, _, rfl, rfl, rfl⟩
+      GroupMod.marshalM g = .ok (bs, v') ∧ bs.length = 48 ∧ beAt bs 2 2 = 48 ∧
+      Framed Gen.openflow13.VERSION Gen.openflow13.Type_GroupMod 7 bs v' := by
+  have hm : GroupMod.marshalM (.obj "GroupMod" [.obj "Header" [.num 4, .num 15, .num 8, .num 7], .num 0, .num 0, .num 0, .num 0,
+      .list [.obj "Bucket" [.num 16, .num 0, .num 4294967295, .num 4294967295, .bytes (zeros 4),
+        .list [NXActionHeader.new 0]]]]) = .ok (_, _) := rfl
+  exact ⟨_, _, _, _, rfl, rfl, hm, rfl, rfl, (groupMod_framed _ _ _ 7 _ rfl _ _ hm (by decide)).1⟩
 
 /-! ### PortMod, SetConfig, Hello, header-only messages -/
 
@@ -662,18 +631,13 @@ theorem flowMod_sent (v : V) (xid : Nat) (hst : Stamped Gen.openflow13.Type_Flow
   obtain ⟨ln, hh⟩ := hst
   exact flowMod_framed v _ _ xid ln hh bs v' hm hlt
 
-/-- GroupMod built from NewGroupMod(), with aligned buckets (see `groupMod_framed_partial`) -/
-theorem groupMod_sent (h cmd t p g : V) (bks : List V) (xid : Nat)
-    (hst : Stamped Gen.openflow13.Type_GroupMod xid (.obj "GroupMod" [h, cmd, t, p, g, .list bks]))
-    (hal : ∀ b ∈ bks, BucketAligned b)
-    (bs : Bytes) (v' : V) (hm : GroupMod.marshalM (.obj "GroupMod" [h, cmd, t, p, g, .list bks]) = .ok (bs, v'))
-    (hlt : bs.length < 65536) :
+/-- GroupMod built from NewGroupMod(), any AddBucket of buckets with any actions -/
+theorem groupMod_sent (v : V) (xid : Nat) (hst : Stamped Gen.openflow13.Type_GroupMod xid v)
+    (bs : Bytes) (v' : V) (hm : GroupMod.marshalM v = .ok (bs, v')) (hlt : bs.length < 65536) :
     Framed Gen.openflow13.VERSION Gen.openflow13.Type_GroupMod xid bs v' ∧
-    ∀ l v1, GroupMod.lenM (.obj "GroupMod" [h, cmd, t, p, g, .list bks]) = .ok (l, v1) → l.toNat = bs.length := by
+    ∀ l v1, GroupMod.lenM v = .ok (l, v1) → l.toNat = bs.length := by
   obtain ⟨ln, hh⟩ := hst
-  simp only [hdrOf] at hh
-  subst hh
-  exact groupMod_framed_partial _ _ xid ln cmd t p g bks hal bs v' hm hlt
+  exact groupMod_framed v _ _ xid ln hh bs v' hm hlt
 
 /-- PortMod built from NewPortMod() -/
 theorem portMod_sent (v : V) (xid : Nat) (hst : Stamped Gen.openflow13.Type_PortMod xid v)
@@ -759,32 +723,248 @@ theorem vendorHeader_sent_nil (h vn t : V) (xid : Nat)
   have := vendorHeader_framed_nil _ _ xid ln vn t bs v' hm
   exact ⟨this.1, this.2.1⟩
 
-/-! ## 4. for the record: exported constructors of switch-originated kinds that are not framed -/
+/-! ## 4. switch-originated kinds the library also constructs and encodes -/
 
-/-- NewErrorMsg() (header never initialised, Header.Length never set by the encoder): 12 bytes whose header says
-    version 0, type 0, length 0 -/
-theorem errorMsg_new_unframed :
-    ∃ bs v', ErrorMsg.marshalM ErrorMsg.zero = .ok (bs, v') ∧ bs.length = 12 ∧ bs.take 8 = zeros 8 :=
-  ⟨_, _, rfl, rfl, rfl⟩
+/-- ErrorMsg: `Header.Length = Len()` is set first, the buffer is allocated from a second Len() (the same: Len() changes
+    nothing) — framed, whatever the data -/
+theorem errorMsg_framed (v : V) (ver ty xid : Nat) (ln : V)
+    (hh : hdrOf v = .obj "Header" [.num ver, .num ty, ln, .num xid])
+    (bs : Bytes) (v' : V) (hm : ErrorMsg.marshalM v = .ok (bs, v')) :
+    Framed ver ty xid bs v' ∧ bs.length < 65536 ∧ ∀ l v1, ErrorMsg.lenM v = .ok (l, v1) → l.toNat = bs.length := by
+  have hs : ∀ l v1, ErrorMsg.lenM v = .ok (l, v1) → bs.length = l.toNat :=
+    fun l v1 hl => C06b.errorMsg_size v l v1 bs v' hl hm
+  unfold ErrorMsg.marshalM at hm
+  obtain ⟨⟨l0, v0⟩, hl0, h3⟩ := bind_ok_inv _ _ _ hm
+  have hsz := hs l0 v0 hl0
+  refine ⟨?_, by rw [hsz]; exact l0.toNat_lt, fun l v1 hl => (hs l v1 hl).symm⟩
+  obtain ⟨⟨l1, v1⟩, hl1, h4⟩ := bind_ok_inv _ _ _ h3
+  have hv0 : hdrOf v0 = hdrOf v := by
+    unfold ErrorMsg.lenM at hl0
+    split at hl0
+    · obtain ⟨_, _, hl0'⟩ := bind_ok_inv _ _ _ hl0
+      cases hl0'; rfl
+    · exact absurd hl0 (by simp)
+  have hv1 : hdrOf v1 = hdrOf v0 := by
+    unfold ErrorMsg.lenM at hl1
+    split at hl1
+    · obtain ⟨_, _, hl1'⟩ := bind_ok_inv _ _ _ hl1
+      cases hl1'; rfl
+    · exact absurd hl1 (by simp)
+  rw [hv0, hh] at hv1
+  simp only at h4
+  split at h4
+  · simp only [hdrOf] at hv1
+    subst hv1
+    obtain ⟨hb, hhb, h5⟩ := bind_ok_inv _ _ _ h4
+    obtain ⟨⟨db, d2⟩, hdm, h6⟩ := bind_ok_inv _ _ _ h5
+    obtain ⟨out, hfill, h7⟩ := bind_ok_inv _ _ _ h6
+    cases h7
+    refine framed_fill ver ty xid ln _ hb _ _ _ bs _ hhb ?_ hfill hsz rfl
+    intro k hk; simp [pU16] at hk
+  · exact absurd h4 (by simp)
 
-/-- NewFlowRemoved(): type 0 instead of OFPT_FLOW_REMOVED (11) and — the encoder does not set Header.Length — length
-    8 for 56 bytes -/
-theorem flowRemoved_new_unframed :
-    ∃ bs v', FlowRemoved.marshalM (FlowRemoved.new 7) = .ok (bs, v') ∧ bs.length = 56 ∧
-      beAt bs 1 1 = 0 ∧ beAt bs 2 2 = 8 :=
-  ⟨_, _, rfl, rfl, rfl, rfl⟩
+/-- VendorError (bundle error): the header sits inside the embedded ErrorMsg (`hdrOf (hdrOf v)`) — framed -/
+theorem vendorError_framed (v : V) (ver ty xid : Nat) (ln : V)
+    (hh : hdrOf (hdrOf v) = .obj "Header" [.num ver, .num ty, ln, .num xid])
+    (bs : Bytes) (v' : V) (hm : VendorError.marshalM v = .ok (bs, v')) :
+    Framed ver ty xid bs (hdrOf v') ∧ bs.length < 65536 ∧ ∀ l v1, VendorError.lenM v = .ok (l, v1) → l.toNat = bs.length := by
+  have hs : ∀ l v1, VendorError.lenM v = .ok (l, v1) → bs.length = l.toNat :=
+    fun l v1 hl => C06b.vendorError_size v l v1 bs v' hl hm
+  unfold VendorError.marshalM at hm
+  obtain ⟨⟨l0, v0⟩, hl0, h3⟩ := bind_ok_inv _ _ _ hm
+  have hsz := hs l0 v0 hl0
+  refine ⟨?_, by rw [hsz]; exact l0.toNat_lt, fun l v1 hl => (hs l v1 hl).symm⟩
+  obtain ⟨⟨l1, v1⟩, hl1, h4⟩ := bind_ok_inv _ _ _ h3
+  have hkeep : ∀ a l b, VendorError.lenM a = .ok (l, b) → hdrOf (hdrOf b) = hdrOf (hdrOf a) := by
+    intro a l b h
+    unfold VendorError.lenM at h
+    split at h
+    · exact absurd h (by simp)
+    · obtain ⟨⟨le, e'⟩, hle, h'⟩ := bind_ok_inv _ _ _ h
+      cases h'
+      unfold ErrorMsg.lenM at hle
+      split at hle
+      · obtain ⟨_, _, hle'⟩ := bind_ok_inv _ _ _ hle
+        cases hle'; rfl
+      · exact absurd hle (by simp)
+    · exact absurd h (by simp)
+  have hv1 := (hkeep _ _ _ hl1).trans ((hkeep _ _ _ hl0).trans hh)
+  simp only at h4
+  split at h4
+  · simp only [hdrOf] at hv1
+    subst hv1
+    obtain ⟨hb, hhb, h5⟩ := bind_ok_inv _ _ _ h4
+    obtain ⟨⟨db, d2⟩, hdm, h6⟩ := bind_ok_inv _ _ _ h5
+    obtain ⟨out, hfill, h7⟩ := bind_ok_inv _ _ _ h6
+    cases h7
+    refine framed_fill ver ty xid ln _ hb _ _ _ bs _ hhb ?_ hfill hsz rfl
+    intro k hk; simp [pU16] at hk
+  · exact absurd h4 (by simp)
 
-/-- NewBundleError(): type 0 instead of OFPT_ERROR (1), length 8 for 16 bytes -/
-theorem bundleError_new_unframed :
-    ∃ bs v', VendorError.marshalM VendorError.new = .ok (bs, v') ∧ bs.length = 16 ∧ beAt bs 1 1 = 0 ∧ beAt bs 2 2 = 8 :=
-  ⟨_, _, rfl, rfl, rfl, rfl⟩
+/-- FlowRemoved, any match: framed -/
+theorem flowRemoved_framed (v : V) (ver ty xid : Nat) (ln : V)
+    (hh : hdrOf v = .obj "Header" [.num ver, .num ty, ln, .num xid])
+    (bs : Bytes) (v' : V) (hm : FlowRemoved.marshalM v = .ok (bs, v')) :
+    Framed ver ty xid bs v' ∧ bs.length < 65536 ∧ ∀ l v1, FlowRemoved.lenM v = .ok (l, v1) → l.toNat = bs.length := by
+  have hs : ∀ l v1, FlowRemoved.lenM v = .ok (l, v1) → bs.length = l.toNat :=
+    fun l v1 hl => C06b.flowRemoved_size v l v1 bs v' hl hm
+  unfold FlowRemoved.marshalM at hm
+  obtain ⟨⟨l0, v0⟩, hl0, h3⟩ := bind_ok_inv _ _ _ hm
+  have hsz := hs l0 v0 hl0
+  refine ⟨?_, by rw [hsz]; exact l0.toNat_lt, fun l v1 hl => (hs l v1 hl).symm⟩
+  obtain ⟨⟨l1, v1⟩, hl1, h4⟩ := bind_ok_inv _ _ _ h3
+  have hkeep : ∀ a l b, FlowRemoved.lenM a = .ok (l, b) → hdrOf b = hdrOf a := by
+    intro a l b h
+    unfold FlowRemoved.lenM at h
+    split at h
+    · obtain ⟨_, _, h'⟩ := bind_ok_inv _ _ _ h
+      cases h'; rfl
+    · exact absurd h (by simp)
+  have hv1 := (hkeep _ _ _ hl1).trans ((hkeep _ _ _ hl0).trans hh)
+  simp only at h4
+  split at h4
+  · simp only [hdrOf] at hv1
+    subst hv1
+    obtain ⟨hb, hhb, h5⟩ := bind_ok_inv _ _ _ h4
+    revert h5
+    repeat peel1
+    intro h9
+    rename_i out hfill
+    cases h9
+    have e8 := Header.bytes_length _ _ hhb
+    simp only [List.cons_append, List.nil_append] at hfill
+    rw [fill_copyAdv8 _ _ _ e8] at hfill
+    refine framed_fill ver ty xid ln _ hb _ _ _ bs _ hhb ?_ hfill hsz rfl
+    intro k hk; simp [pU64] at hk
+  · exact absurd h4 (by simp)
 
-/-- NewPortStatus(): the length is right (80) but the type is 0 instead of OFPT_PORT_STATUS (12) -/
-theorem portStatus_new_type0 :
-    ∃ bs v', PortStatus.marshalM PortStatus.new = .ok (bs, v') ∧ bs.length = 80 ∧ beAt bs 1 1 = 0 ∧ beAt bs 2 2 = 80 :=
-  ⟨_, _, rfl, rfl, rfl, rfl⟩
+/-- PortStatus, any port description shorter than 64 KiB: framed -/
+theorem portStatus_framed (v : V) (ver ty xid : Nat) (ln : V)
+    (hh : hdrOf v = .obj "Header" [.num ver, .num ty, ln, .num xid])
+    (bs : Bytes) (v' : V) (hm : PortStatus.marshalM v = .ok (bs, v')) (hlt : bs.length < 65536) :
+    Framed ver ty xid bs v' ∧ ∀ l v1, PortStatus.lenM v = .ok (l, v1) → l.toNat = bs.length := by
+  have hs : ∀ l v1, PortStatus.lenM v = .ok (l, v1) → bs.length = l.toNat :=
+    fun l v1 hl => (C06b.portStatus_sizeMod v).toOK l v1 bs v' hl hm hlt
+  refine ⟨?_, fun l v1 hl => (hs l v1 hl).symm⟩
+  unfold PortStatus.marshalM at hm
+  obtain ⟨⟨l, v1⟩, hl, h3⟩ := bind_ok_inv _ _ _ hm
+  have hsz := hs l v1 hl
+  unfold PortStatus.lenM at hl
+  split at hl
+  · simp only [hdrOf] at hh
+    subst hh
+    obtain ⟨_, _, hl2⟩ := bind_ok_inv _ _ _ hl
+    cases hl2
+    simp only at h3
+    split at h3
+    · rename_i heq
+      cases heq
+      obtain ⟨hb, hhb, h4⟩ := bind_ok_inv _ _ _ h3
+      obtain ⟨⟨db, d2⟩, hdm, h5⟩ := bind_ok_inv _ _ _ h4
+      cases h5
+      simp only [List.append_assoc] at hsz ⊢
+      exact framed_append ver ty xid ln _ hb _ _ hhb hsz rfl
+    · exact absurd h3 (by simp)
+  · exact absurd hl (by simp)
 
-/-- NewPacketOut() cannot be encoded before SetData: `p.Data.Len()` on the nil interface panics -/
+/-- PacketIn, any match and frame: framed when the frame's Len() is repeatable (the condition of
+    `C06b.packetIn_sizeMod`: the frame is encoded after Len() has run over it) and the encoding is shorter than 64 KiB -/
+theorem packetIn_framed (ver ty xid : Nat) (ln b t r ti c m pad eth : V) (hidem : LenIdem PEthernet.lenM eth)
+    (bs : Bytes) (v' : V)
+    (hm : PacketIn.marshalM (.obj "PacketIn" [.obj "Header" [.num ver, .num ty, ln, .num xid], b, t, r, ti, c, m, pad, eth]) = .ok (bs, v'))
+    (hlt : bs.length < 65536) :
+    Framed ver ty xid bs v' ∧
+    ∀ l v1, PacketIn.lenM (.obj "PacketIn" [.obj "Header" [.num ver, .num ty, ln, .num xid], b, t, r, ti, c, m, pad, eth]) = .ok (l, v1) →
+      l.toNat = bs.length := by
+  have hs := fun l v1 hl => (C06b.packetIn_sizeMod _ b t r ti c m pad eth hidem).toOK l v1 bs v' hl hm hlt
+  refine ⟨?_, fun l v1 hl => (hs l v1 hl).symm⟩
+  unfold PacketIn.marshalM at hm
+  obtain ⟨⟨l, v1⟩, hl, h3⟩ := bind_ok_inv _ _ _ hm
+  have hsz := hs l v1 hl
+  simp only [PacketIn.lenM] at hl
+  obtain ⟨_, _, hl2⟩ := bind_ok_inv _ _ _ hl
+  obtain ⟨_, _, hl3⟩ := bind_ok_inv _ _ _ hl2
+  cases hl3
+  simp only at h3
+  split at h3
+  · rename_i heq
+    cases heq
+    obtain ⟨hb, hhb, h4⟩ := bind_ok_inv _ _ _ h3
+    obtain ⟨_, _, h5⟩ := bind_ok_inv _ _ _ h4
+    obtain ⟨_, _, h6⟩ := bind_ok_inv _ _ _ h5
+    cases h6
+    simp only [List.append_assoc] at hsz ⊢
+    exact framed_append ver ty xid ln _ hb _ _ hhb hsz rfl
+  · exact absurd h3 (by simp)
+
+/-- NewErrorMsg(): version 4, OFPT_ERROR -/
+theorem errorMsg_new_stamped : Stamped Gen.openflow13.Type_Error 0 ErrorMsg.new := ⟨.num 8, rfl⟩
+/-- NewFlowRemoved(): version 4, OFPT_FLOW_REMOVED -/
+theorem flowRemoved_new_stamped (xid : Nat) : Stamped Gen.openflow13.Type_FlowRemoved (n32 xid).toNat (FlowRemoved.new xid) := ⟨.num 8, rfl⟩
+/-- NewPortStatus(): version 4, OFPT_PORT_STATUS -/
+theorem portStatus_new_stamped : Stamped Gen.openflow13.Type_PortStatus 0 PortStatus.new := ⟨.num 8, rfl⟩
+/-- NewPacketIn(): version 4, OFPT_PACKET_IN -/
+theorem packetIn_new_stamped : Stamped Gen.openflow13.Type_PacketIn 0 PacketIn.new := ⟨.num 8, rfl⟩
+/-- NewBundleError(): the embedded ErrorMsg carries version 4, OFPT_ERROR -/
+theorem bundleError_new_stamped : Stamped Gen.openflow13.Type_Error 0 (hdrOf VendorError.new) := ⟨.num 8, rfl⟩
+
+/-- an ErrorMsg built from NewErrorMsg() -/
+theorem errorMsg_sent (v : V) (xid : Nat) (hst : Stamped Gen.openflow13.Type_Error xid v)
+    (bs : Bytes) (v' : V) (hm : ErrorMsg.marshalM v = .ok (bs, v')) :
+    Framed Gen.openflow13.VERSION Gen.openflow13.Type_Error xid bs v' ∧ bs.length < 65536 := by
+  obtain ⟨ln, hh⟩ := hst
+  have := errorMsg_framed v _ _ xid ln hh bs v' hm
+  exact ⟨this.1, this.2.1⟩
+
+/-- a bundle error built from NewBundleError() -/
+theorem bundleError_sent (v : V) (xid : Nat) (hst : Stamped Gen.openflow13.Type_Error xid (hdrOf v))
+    (bs : Bytes) (v' : V) (hm : VendorError.marshalM v = .ok (bs, v')) :
+    Framed Gen.openflow13.VERSION Gen.openflow13.Type_Error xid bs (hdrOf v') ∧ bs.length < 65536 := by
+  obtain ⟨ln, hh⟩ := hst
+  have := vendorError_framed v _ _ xid ln hh bs v' hm
+  exact ⟨this.1, this.2.1⟩
+
+/-- a FlowRemoved built from NewFlowRemoved() -/
+theorem flowRemoved_sent (v : V) (xid : Nat) (hst : Stamped Gen.openflow13.Type_FlowRemoved xid v)
+    (bs : Bytes) (v' : V) (hm : FlowRemoved.marshalM v = .ok (bs, v')) :
+    Framed Gen.openflow13.VERSION Gen.openflow13.Type_FlowRemoved xid bs v' ∧ bs.length < 65536 := by
+  obtain ⟨ln, hh⟩ := hst
+  have := flowRemoved_framed v _ _ xid ln hh bs v' hm
+  exact ⟨this.1, this.2.1⟩
+
+/-- a PortStatus built from NewPortStatus() -/
+theorem portStatus_sent (v : V) (xid : Nat) (hst : Stamped Gen.openflow13.Type_PortStatus xid v)
+    (bs : Bytes) (v' : V) (hm : PortStatus.marshalM v = .ok (bs, v')) (hlt : bs.length < 65536) :
+    Framed Gen.openflow13.VERSION Gen.openflow13.Type_PortStatus xid bs v' := by
+  obtain ⟨ln, hh⟩ := hst
+  exact (portStatus_framed v _ _ xid ln hh bs v' hm hlt).1
+
+/-- the constructors' own values, encoded: NewErrorMsg 12 bytes, NewFlowRemoved 56, NewBundleError 16, NewPortStatus 80,
+    NewPacketIn 48 — each with version 4, its type code and its length (the former `…_new_unframed` counterexamples) -/
+theorem switch_side_constructors_framed :
+    (∃ bs v', ErrorMsg.marshalM ErrorMsg.new = .ok (bs, v') ∧ bs.length = 12 ∧ Framed 4 Gen.openflow13.Type_Error 0 bs v') ∧
+    (∃ bs v', FlowRemoved.marshalM (FlowRemoved.new 7) = .ok (bs, v') ∧ bs.length = 56 ∧
+      Framed 4 Gen.openflow13.Type_FlowRemoved 7 bs v') ∧
+    (∃ bs v', VendorError.marshalM VendorError.new = .ok (bs, v') ∧ bs.length = 16 ∧
+      Framed 4 Gen.openflow13.Type_Error 0 bs (hdrOf v')) ∧
+    (∃ bs v', PortStatus.marshalM PortStatus.new = .ok (bs, v') ∧ bs.length = 80 ∧
+      Framed 4 Gen.openflow13.Type_PortStatus 0 bs v') ∧
+    (∃ bs v', PacketIn.marshalM PacketIn.new = .ok (bs, v') ∧ bs.length = 48 ∧
+      Framed 4 Gen.openflow13.Type_PacketIn 0 bs v') := by
+  refine ⟨⟨_, _, rfl, rfl, ?_⟩, ⟨_, _, rfl, rfl, ?_⟩, ⟨_, _, rfl, rfl, ?_⟩, ⟨_, _, rfl, rfl, ?_⟩, ⟨_, _, rfl, rfl, ?_⟩⟩
+  · exact (errorMsg_sent _ 0 errorMsg_new_stamped _ _ rfl).1
+  · exact (flowRemoved_sent _ 7 (flowRemoved_new_stamped 7) _ _ rfl).1
+  · exact (bundleError_sent _ 0 bundleError_new_stamped _ _ rfl).1
+  · exact portStatus_sent _ 0 portStatus_new_stamped _ _ rfl (by decide)
+  · have hidem : LenIdem PEthernet.lenM PEthernet.zero := by
+      intro l v1 h
+      have e : PEthernet.lenM PEthernet.zero = .ok (14, PEthernet.zero) := rfl
+      rw [e] at h; cases h; exact e
+    have hm : PacketIn.marshalM (.obj "PacketIn" [.obj "Header" [.num 4, .num 10, .num 8, .num 0], .num 4294967295,
+        .num 0, .num 0, .num 0, .num 0, Match.new, .bytes [], PEthernet.zero]) = .ok (_, _) := rfl
+    exact (packetIn_framed 4 10 0 (.num 8) _ _ _ _ _ _ _ _ hidem _ _ hm (by decide)).1
+
+/-- observation: NewPacketOut() cannot be encoded before SetData: `p.Data.Len()` on the nil interface panics -/
 theorem packetOut_new_panics : PacketOut.marshalM PacketOut.new = .panic := rfl
 
 /-! ## the hypotheses are satisfiable: concrete, non-trivial instances -/
@@ -813,22 +993,19 @@ example :
   have hf := (flowMod_sent _ 7 hst _ _ hm (by decide)).1
   exact ⟨_, _, _, _, h1, h2, hm, rfl, hf.reads (by decide) (by decide) (by decide) (by decide)⟩
 
-/-- NewGroupMod (xid 9) + a bucket with an output and a set-queue action (`bucketAligned_of_padded`): framed -/
+/-- NewGroupMod (xid 9) + a bucket with an output action and a 4-byte COPY_TTL_OUT action (36 bytes of content, padded
+    to 40): framed, 56 bytes — the value of the former counterexample's kind -/
 example :
     let b := V.obj "Bucket" [.num 16, .num 0, .num 4294967295, .num 4294967295, .bytes (zeros 4),
-      .list [ActionOutput.new 1, ActionSetqueue.new 5]]
+      .list [ActionOutput.new 1, ActionHeader.mk Gen.openflow13.ActionType_CopyTtlOut 4]]
     ∃ g bs v', GroupMod.addBucket (GroupMod.new 9) b = .ok g ∧ GroupMod.marshalM g = .ok (bs, v') ∧
       Framed Gen.openflow13.VERSION Gen.openflow13.Type_GroupMod 9 bs v' ∧ bs.length = 56 := by
   intro b
   have h1 : GroupMod.addBucket (GroupMod.new 9) b = .ok _ := rfl
   have hm : GroupMod.marshalM (.obj "GroupMod" [.obj "Header" [.num 4, .num 15, .num 8, .num 9],
       .num 0, .num 0, .num 0, .num 0, .list [b]]) = .ok (_, _) := rfl
-  have hal : ∀ x ∈ [b], BucketAligned x := by
-    intro x hx
-    simp only [List.mem_cons, List.mem_nil_iff, or_false] at hx
-    subst hx
-    exact bucketAligned_of_padded _ _ _ _ _ _ (by decide)
-  exact ⟨_, _, _, h1, hm, (groupMod_sent _ _ _ _ _ _ 9 ⟨_, rfl⟩ hal _ _ hm (by decide)).1, rfl⟩
+  have hst : Stamped Gen.openflow13.Type_GroupMod 9 _ := (groupMod_new_stamped 9).of_hdr_eq (groupMod_addBucket_hdr _ _ _ h1)
+  exact ⟨_, _, _, h1, hm, (groupMod_sent _ 9 hst _ _ hm (by decide)).1, rfl⟩
 
 /-- NewPacketOut + AddAction(output:2) + SetData(3 bytes), xid 5: framed (`packetOut_sent`) -/
 example :
